@@ -209,3 +209,50 @@ func hash64(s string) uint64 {
 func pick[T any](c *simrt.Chooser, label string, xs []T) T {
 	return xs[c.Choose(label, len(xs))]
 }
+
+// runTasks steps the tasks of a component-level scheduler until none is
+// runnable, under a schedule policy drawn per call: uniform random picks,
+// sticky (keep running the same task with high probability, which is what
+// lets one task finish inside a window of another), or priorities with a few
+// change points (PCT).
+func runTasks(c *simrt.Chooser, sched *simrt.Sched, budget int) {
+	policy := c.Choose("component-policy", 3)
+	var last *simrt.Task
+	prio := map[int]int{}
+	changes := 2
+	for n := 0; n < budget; n++ {
+		run := sched.RunnableTasks()
+		if len(run) == 0 {
+			return
+		}
+		var t *simrt.Task
+		switch policy {
+		case 0:
+			t = run[c.Choose("task", len(run))]
+		case 1:
+			for _, r := range run {
+				if r == last && c.Choose("stay", 10) < 9 {
+					t = r
+				}
+			}
+			if t == nil {
+				t = run[c.Choose("task", len(run))]
+			}
+		case 2:
+			for _, r := range run {
+				if _, ok := prio[r.ID]; !ok {
+					prio[r.ID] = 1 + c.Choose("prio", 100)
+				}
+				if t == nil || prio[r.ID] > prio[t.ID] {
+					t = r
+				}
+			}
+			if changes > 0 && c.Choose("prio-change", 8) == 0 {
+				changes--
+				prio[t.ID] = -changes
+			}
+		}
+		last = t
+		sched.Step(t)
+	}
+}
